@@ -43,6 +43,10 @@ func Acquire(spaceLen int) (*Space, error) {
 
 // Write 写入数据
 func Write(s *Space, data []byte) error {
+	// the space is only as long as it was acquired: never write (or silently truncate) beyond it
+	if s.Space == nil || len(data) > len(*s.Space) {
+		return fmt.Errorf("stub write fail, data length %d exceeds the acquired space", len(data))
+	}
 	switch s.typ {
 	case TypeMMap:
 		copy(*s.Space, data[:])
